@@ -128,3 +128,10 @@ add(
 )
 add(Scenario("h1-retries-max1-AA", dict(max_connections=1, retries=1), [c("r1", A + "/"), c("r2", A + "/x")]))
 add(Scenario("h1-retries-max2-AB", dict(max_connections=2, retries=2), [c("r1", A + "/"), c("r2", B + "/x"), c("r3", A + "/y")]))
+add(
+    Scenario(
+        "h1-max1-pto-zero",
+        dict(max_connections=1),
+        [c("r1", A + "/", timeout={"pool": 0}), c("r2", A + "/x", timeout={"pool": 0}, gates=("start",)), c("r3", B + "/y", timeout={"pool": 0}, gates=("start",))],
+    )
+)
